@@ -37,7 +37,11 @@ def run_property(prop, tier, seed, jobs=None, only=None, verbose=False):
     from .loader import Program
     t0 = time.time()
     prog = Program()
-    specs = [s for s in all_specs(prog, tier) if prop in s.props and (tier == "thorough" or s.quick)]
+    def spec_selected(s):
+        if prop in s.props:
+            return True
+        return any(q in s.props and not same_family and pred(s.name + "/") for q, pred, same_family in IMPORTS.get(prop, []))
+    specs = [s for s in all_specs(prog, tier) if spec_selected(s) and (tier == "thorough" or s.quick)]
     if only:
         specs = [s for s in specs if only in s.name]
     if not specs:
@@ -55,10 +59,11 @@ def run_property(prop, tier, seed, jobs=None, only=None, verbose=False):
     for r in results:
         if r["error"]:
             (unsupported if r["error"].startswith("unsupported") else errors).append((r["family"], r["error"]))
-            continue
+            # obligations of the variants that did run are still judged
         functions.update(r["functions"])
         for o in r["obls"]:
-            if prop in o["props"]:
+            if prop in o["props"] or any(q in o["props"] and pred(o["name"]) and (not same_family or prop in r["props"])
+                                         for q, pred, same_family in IMPORTS.get(prop, [])):
                 o["family"] = r["family"]
                 obls.append(o)
                 solver_s += (o["ms"] or 0) / 1000.0
@@ -80,6 +85,7 @@ def run_property(prop, tier, seed, jobs=None, only=None, verbose=False):
     known_hits = []
     from . import replay
     seen_kf = set()
+    replays_run, any_reproduced = 0, False
     for o in failed:
         kf = engine.match_known(known.get("findings", []), prop, o)
         if kf is not None:
@@ -89,7 +95,14 @@ def run_property(prop, tier, seed, jobs=None, only=None, verbose=False):
                 lines.append(f"KNOWN-FINDING: property={prop} {kf['what_fails']}")
             known_hits.append(o["name"])
             continue
-        path, reproduced = replay.write_and_run(prop, o, prog)
+        # every failing obligation is reported; at most MAX_REPLAYS of them are replayed on the
+        # real code (the rest carry the scenario file only)
+        if replays_run < MAX_REPLAYS or (not any_reproduced and replays_run < 2 * MAX_REPLAYS):
+            path, reproduced = replay.write_and_run(prop, o, prog)
+            replays_run += 1
+            any_reproduced = any_reproduced or reproduced
+        else:
+            path, reproduced = replay.write_only(prop, o), False
         violations += 1
         tail = "" if reproduced else " no-failing-input-found"
         lines.append(f"VIOLATION property={prop} replay={path}{tail}")
@@ -159,6 +172,23 @@ def run_property(prop, tier, seed, jobs=None, only=None, verbose=False):
     return exit_code
 
 
+import re as _re
+
+# C10's "every existing object still evaluates like a freshly built copy" rests on the memo
+# protocol of C09: those obligations are imported into the C10 check
+_memo = lambda name: _re.search(r"/memo:", name) is not None
+IMPORTS = {
+    # property -> [(property the obligation is tagged with, name predicate, only from
+    #               families that themselves serve this property)]
+    "C10": [("C09", lambda name: _re.search(r"memo|_reset_evaluation_cache|history\[", name) is not None, False)],
+    # the memo pre-condition of the evaluation-family methods is what makes the value / raise
+    # post-conditions of the public entries true on every history: import it where it is used
+    # ... and the contract of _reset_evaluation_cache (used at every public entry) is proved by
+    # its own per-class families
+    **{p: [("C09", _memo, True), ("C09", lambda name: "._reset_evaluation_cache/" in name, False)]
+       for p in ("C01", "C02", "C03", "C04", "C05", "C06", "C07")},
+}
+MAX_REPLAYS = 12
 MIN_OBLIGATIONS = {}
 EXTRA_ASSUMPTIONS = {}
 
